@@ -16,7 +16,8 @@ SOURCES = [('param/parameterized.py', 'Parameter.__set__'), ('param/parameterize
            ('param/parameterized.py', '_m_caller'), ('param/parameterized.py', '_getattrr'),
            ('param/parameterized.py', 'Comparator'), ('param/parameterized.py', 'Parameters._call_watcher'),
            ('param/parameterized.py', 'Parameters._register_watcher'), ('param/parameterized.py', 'Parameters.unwatch'),
-           ('param/parameterized.py', 'Parameterized.__init__')]
+           ('param/parameterized.py', 'Parameterized.__init__'), ('param/parameterized.py', '_params_depended_on'),
+           ('param/parameterized.py', 'ParameterizedMetaclass.__init__')]
 BUDGET_S = {'quick': 50, 'thorough': 400}
 TRUSTED = [
     'statements in lean/ParamVerif/Props/C07.lean',
@@ -27,7 +28,7 @@ TRUSTED = [
 ]
 ASSUMPTIONS = [
     'object graphs stay forests: an object is attached at one place at a time and never below itself (sharing and cycles are outside)',
-    'only one class has dependent methods (declared on it or inherited from a base class made for the case); sub-objects have none; methods only log and, on chosen invocations, raise (caught by the harness around the triggering assignment); values are integers, object names come from a small set; classes may be falsy (__len__ == 0)',
+    'only one class has dependent methods (declared on it or inherited from a base class made for the case); sub-objects have none; methods only log and, on chosen invocations, raise (caught by the harness around the triggering assignment); values are integers, object names come from a small set; classes may be falsy (__len__ == 0); an object-valued parameter of the owner may have a class-level default (an object made earlier, shared: instantiate=False; the model is given it as an explicit constructor argument)',
     'path elements are object-valued parameters, the leaf is an integer parameter, an object-valued parameter, or `param` (only at depth 1); no slots (a.x:bounds); batching only as param.update / batch_call_watchers / discard_events on one object around assignments to that object (keys may repeat in a batch_call_watchers block), no nesting',
 ]
 RULE = ('directed histories (the design probes p5, p23 and their variants) + random histories: 1-2 dependent methods with 1-3 path '
@@ -38,7 +39,7 @@ RULE = ('directed histories (the design probes p5, p23 and their variants) + ran
         'are declared on the owner class or inherited from a base class, classes are sometimes falsy.  After every step '
         'the invocation log (with the values read) and the watcher tables and dynamic_watchers of all objects are compared with '
         'the model and judged by the oracle.  non-trivial = a method fired at least once and >=3 steps judged')
-COVERAGE_TARGETS = ['step:discard', 'step:batch-repeated-key', 'decl:inherited', 'decl:own', 'objects:falsy', 'leaf:object', 'step:update', 'step:batch', 'step:method-raised', 'depth:1', 'depth:2', 'depth:3', 'deps:one', 'deps:several', 'leaf:param', 'fired',
+COVERAGE_TARGETS = ['attach:class-default', 'step:discard', 'step:batch-repeated-key', 'decl:inherited', 'decl:own', 'objects:falsy', 'leaf:object', 'step:update', 'step:batch', 'step:method-raised', 'depth:1', 'depth:2', 'depth:3', 'deps:one', 'deps:several', 'leaf:param', 'fired',
                     'step:attach', 'step:replace', 'step:detach', 'step:leaf-attached', 'step:leaf-detached', 'step:replace-equal']
 
 LOG = []
@@ -106,11 +107,20 @@ def run_impl(case):
     import param
     try:
         ids = {}
-        K = []
-        for k, c in enumerate(case['classes']):
+        K = {}
+        objs = []
+
+        def build(k):
+            """the class is made when its first object is: a class-level default of an object-valued parameter (shared by
+            the instances, instantiate=False) is an object created earlier in the history"""
+            if k in K:
+                return K[k]
+            c = case['classes'][k]
             ns = {}
+            dflt = c.get('defaults', {})
             for p in c['objParams']:
-                ns[p] = param.ClassSelector(class_=param.Parameterized, default=None, allow_None=True)
+                d = _jval(dflt[p], objs) if p in dflt else None
+                ns[p] = param.ClassSelector(class_=param.Parameterized, default=d, allow_None=True, instantiate=False)
             for p in c['intParams']:
                 ns[p] = param.Number(default=0)
             if c.get('falsy'):
@@ -126,11 +136,11 @@ def run_impl(case):
                 base = type(f'B{k}', (param.Parameterized,), ns)
                 sub = {m['name']: meths[m['name']] for m in c['methods'][nbase:]}
                 sub['extra'] = param.Number(default=0)
-                K.append(type(f'C{k}', (base,), sub))
+                K[k] = type(f'C{k}', (base,), sub)
             else:
                 ns.update(meths)
-                K.append(type(f'C{k}', (param.Parameterized,), ns))
-        objs = []
+                K[k] = type(f'C{k}', (param.Parameterized,), ns)
+            return K[k]
         COUNT.clear()
         case = dict(case, _cls_of=[])
         steps = []
@@ -141,8 +151,10 @@ def run_impl(case):
                 if st['op'] == 'new':
                     kw = {}
                     for n, v in st['vals']:
+                        if n in st.get('use_default', ()):
+                            continue            # not passed: the class-level default (the same object) is what is attached
                         kw[n] = f'n{v}' if n == 'name' else _jval(v, objs)
-                    o = K[st['cls']](**kw)
+                    o = build(st['cls'])(**kw)
                     ids[id(o)] = len(objs)
                     objs.append(o)
                     case['_cls_of'].append(st['cls'])
@@ -313,22 +325,36 @@ def _gen_case(rng):
     sh = _Shadow()
     steps = []
 
-    def emit_new(cls, attach=True, holder_root=None):
+    def emit_new(cls, attach=True, holder_root=None, defaults=None):
         kw = {'name': rng.choice([0, 0, 1]), 'x': rng.choice([0, 1, 2]), 'y': rng.choice([0, 1, 2])}
-        used = []
+        used = list((defaults or {}).values())
+        kw.update(defaults or {})
         for p in OBJP:
+            if p in (defaults or {}):
+                continue
             if attach and rng.random() < 0.5:
                 cand = [i for i in range(len(sh.cls)) if sh.parent[i] is None and sh.cls[i] == 0 and i not in used]
                 if cand:
                     kw[p] = rng.choice(cand)
                     used.append(kw[p])
         st = _new(cls, **kw)
+        if defaults:
+            st['use_default'] = sorted(defaults)
         steps.append(st)
         return sh.new(st)
 
     for _ in range(rng.randint(2, 5)):
         emit_new(0)
-    top = emit_new(1)
+    # sometimes a sub-object is the CLASS-LEVEL default of the owner's parameter (an object made before the class,
+    # shared, instantiate=False) and the owner is constructed without passing it
+    dflt = {}
+    if rng.random() < 0.25:
+        cand = [i for i in range(len(sh.cls)) if sh.parent[i] is None]
+        for p in OBJP:
+            if cand and rng.random() < 0.6:
+                dflt[p] = rng.choice(cand)
+                cand.remove(dflt[p])
+    top = emit_new(1, defaults=dflt)
     for _ in range(rng.randint(6, 20)):
         r = rng.random()
         reach = sh.reachable(top)
@@ -397,7 +423,10 @@ def _gen_case(rng):
     # sub-objects / the owner are falsy: neither may make a difference
     nbase = rng.choice([0, 0, 0, len(methods), 1])
     falsy = (rng.random() < 0.2, rng.random() < 0.15)
-    return {'classes': _classes(methods, nbase, falsy), 'steps': steps}
+    cl = _classes(methods, nbase, falsy)
+    if dflt:
+        cl[1]['defaults'] = {p: _ref(d) for p, d in dflt.items()}
+    return {'classes': cl, 'steps': steps}
 
 
 def _directed():
@@ -463,6 +492,14 @@ def _directed():
             _set(4, 'x', 3), _set(2, 'x', 9), _new(0, x=3), _set(3, 'a', _ref(5)), _set(5, 'x', 4), _set(4, 'x', 0),
             _new(0, y=5), _set(5, 'b', _ref(6)), _set(6, 'y', 6), _new(0, x=1), _set(3, 'b', _ref(7)), _set(7, 'x', 2),
             _set(0, 'x', 5)]}
+    # the attached sub-object is the class-level default of the parameter (declared on the class / on the base class the
+    # method is inherited from); it is followed and replaced like any other
+    for nbase in (0, 1):
+        cl = _classes([_m('m0', 'a.x', 'a.b.y')], nbase=nbase)
+        cl[1]['defaults'] = {'a': _ref(1)}
+        yield {'classes': cl, 'steps': [
+            _new(0, y=1), _new(0, x=1, b=0), dict(_new(1, a=1), use_default=['a']), _set(1, 'x', 2), _set(0, 'y', 2),
+            _new(0, x=2), _set(2, 'a', _ref(3)), _set(1, 'x', 9), _set(3, 'x', 3), _set(2, 'a', _ref(1)), _set(1, 'x', 4)]}
     # falsy objects (empty containers) on the path, as owner and as holders of intermediate links
     for falsy in ((True, False), (False, True), (True, True)):
         yield {'classes': _classes([_m('m0', 'a.b.x')], falsy=falsy), 'steps': [
@@ -520,6 +557,8 @@ def tags(case, impl):
     t.append('decl:inherited' if c1.get('nbase') else 'decl:own')
     if any(c.get('falsy') for c in case['classes']):
         t.append('objects:falsy')
+    if c1.get('defaults'):
+        t.append('attach:class-default')
     sh = _Shadow()
     tops = []
     ok = [x for x in impl.get('steps', []) if not x.get('err')] if isinstance(impl, dict) else []
@@ -582,6 +621,10 @@ def shrink(case):
             for s in range(len(m['specs'])):
                 m2 = dict(m, specs=m['specs'][:s] + m['specs'][s + 1:])
                 yield _with_methods(case, ms[:j] + [m2] + ms[j + 1:])
+    if any(c.get('defaults') for c in case['classes']):
+        # the class-level defaults passed explicitly instead (same object graph)
+        yield dict(case, classes=[{q: v for q, v in c.items() if q != 'defaults'} for c in case['classes']],
+                   steps=[{q: v for q, v in st.items() if q != 'use_default'} for st in steps])
     for k, c in enumerate(case['classes']):
         for flag in ('nbase', 'falsy'):
             if c.get(flag):
